@@ -66,7 +66,7 @@ fn judge(case: &Case<Program>, rep: &mut Report) {
     for (fname, facts) in &case.facts {
         rep.eval(1);
         rep.count(&format!("files_parsed_{lname}"), 1);
-        let cfgclass = format!("prefix={}|package={}", !case.cfg.prefix.is_empty(), if case.cfg.package.is_empty() { "none" } else if case.cfg.package.contains('.') { "dotted" } else { "single" });
+        let cfgclass = format!("header={}|prefix={}|package={}", !case.cfg.no_header, !case.cfg.prefix.is_empty(), if case.cfg.package.is_empty() { "none" } else if case.cfg.package.contains('.') { "dotted" } else { "single" });
         rep.cell(format!("{lname}|{cfgclass}|multi={}", case.multi));
         match &facts.status {
             ParseStatus::Parsed(f) => {
@@ -183,6 +183,8 @@ pub fn run(ctx: &Ctx) -> (Spec, Report) {
                     if matches!(l, LangId::Swift | LangId::Kotlin) && rng.coin() {
                         c.prefix = "OP".into();
                     }
+                    // header setting of the library API (the version header is a comment block of its own form per backend)
+                    c.no_header = rng.chance(1, 4);
                     match l {
                         LangId::Kotlin => c.package = rng.pick(&["", "com.verif.gen", "pkg"]).to_string(),
                         LangId::Scala => c.package = rng.pick(&["com.verif.gen", "com.verif.gen", "pkg"]).to_string(),
